@@ -1,6 +1,6 @@
 (* C06: behaviour of the code before the validation steps were reordered (conversion of values ran first).
-   A request whose columns do not conform (w: int64 instead of int32) and whose dataclass bytes are truncated
-   (conversion fails with OSError, a class outside the 400 list) was answered 200 + X-VGI-RPC-Error instead of 400.
+   A request whose columns do not conform (w: int64 instead of int32) and whose dataclass bytes
+   fail batch validation (conversion fails with IPCError, a class outside the 400 list) was answered 200 + X-VGI-RPC-Error instead of 400.
    The same request under the order shape -> nullness -> values is a 400 (second lemma). *)
 From Coq Require Import List NArith Bool.
 From VGI Require Import Corr M_Validate L_Validate.
@@ -22,9 +22,9 @@ Definition r_mi : minfo := {|
   mi_defaults := [];
   mi_schema := [{| f_name := r_v; f_type := 0; f_null := false |}; {| f_name := r_w; f_type := 1; f_null := false |}];
   mi_stream := false |}.
-Definition os_error := mk_exn cOSError [cOSError; cException].
+Definition ipc_error := mk_exn cIPCError [cIPCError; cException].
 Definition r_blob : pyval :=
-  {| v_bytes := true; v_str := false; v_list := false; v_enum := None; v_dc := Some os_error; v_dict := None; v_fset := None |}.
+  {| v_bytes := true; v_str := false; v_list := false; v_enum := None; v_dc := Some ipc_error; v_dict := None; v_fset := None |}.
 Definition r_int : pyval :=
   {| v_bytes := false; v_str := false; v_list := false; v_enum := None; v_dc := None; v_dict := None; v_fset := None |}.
 (* column w arrives as type tag 2 (int64) instead of the declared tag 1 (int32) *)
